@@ -26,6 +26,25 @@ def sh(cmd, cwd, timeout=1800):
     return p.returncode, (p.stdout + p.stderr)[-1500:]
 
 
+def rerun_broken(scratch, broken):
+    """Timing-based tests (tests/test_thread.py, test_ash_end_to_end) flake on a loaded machine: a test
+    counted as broken is re-run on its own, twice; it stays broken only if it fails both times."""
+    still = []
+    for t in broken:
+        mod, name = t.split("::", 1)
+        node = mod.replace(".", "/") + ".py::" + name
+        ok = False
+        for _ in range(2):
+            p = subprocess.run(["/venv/bin/python", "-m", "pytest", "-q", "-p", "no:cacheprovider", "-p", "no:sugar", "--timeout=120", node],
+                               cwd=scratch, capture_output=True, text=True)
+            if p.returncode == 0:
+                ok = True
+                break
+        if not ok:
+            still.append(t)
+    return still
+
+
 def main():
     wt, k, sid, prop, needs = sys.argv[1:6]
     src = Path(wt) / "SEEDED" / k
@@ -64,6 +83,8 @@ def main():
     except Exception as e:  # noqa: BLE001
         report["junit_error"] = repr(e)
     broken = sorted(set(BASELINE["stable_pass"]) - passed)
+    if broken and len(broken) <= 6:
+        broken = rerun_broken(scratch, broken)
     report["ran"].append({"step": "baseline tests with the change", "stable_tests_broken": broken[:5], "n_passed": len(passed)})
     ok = rc0 == 0 and rc1 == 0 and rc2 != 0 and not broken
     report["confirmed"] = ok
